@@ -645,16 +645,17 @@ type runner struct {
 	nStmt     int
 	harnessEr string
 
-	attrs    map[*gorm.DB]attr
-	sessions map[sessKey]*gorm.DB
-	cancelTx func()         // cancels the context the running outermost transaction was begun with
-	txKilled bool           // the running outermost transaction has been finished behind Commit's back (manual Rollback / cancelled context)
-	excluded string         // the case turned out to be in a listed known-finding class
-	faultErr error          // what an injected fault returns
-	inHook   int            // hook bodies that are running
-	goexit   bool           // the program has called runtime.Goexit: the goroutine is unwinding
-	handles  []*gorm.DB     // handles of the blocks that are running, outermost first
-	active   []*activeBlock // Transaction blocks that are running
+	attrs          map[*gorm.DB]attr
+	sessions       map[sessKey]*gorm.DB
+	cancelTx       func()         // cancels the context the running outermost transaction was begun with
+	txKilled       bool           // the running outermost transaction has been finished behind Commit's back (manual Rollback / cancelled context)
+	excluded       string         // the case turned out to be in a listed known-finding class
+	faultErr       error          // what an injected fault returns
+	inHook         int            // hook bodies that are running
+	rollbackFailed bool           // badconn: a driver ROLLBACK on the dead connection reported ErrBadConn
+	goexit         bool           // the program has called runtime.Goexit: the goroutine is unwinding
+	handles        []*gorm.DB     // handles of the blocks that are running, outermost first
+	active         []*activeBlock // Transaction blocks that are running
 }
 
 type activeBlock struct {
@@ -1142,6 +1143,27 @@ func (x *runner) killByContext() {
 	x.txKilled = true
 }
 
+// rollbackErrOK: Rollback().Error of a manual program is nil, or – on the dead
+// connection of a badconn fault – the driver's error.
+func (x *runner) rollbackErrOK(e error) bool {
+	return e == nil || (x.c.Fault.Kind == fBadConn && errors.Is(e, driver.ErrBadConn))
+}
+
+// unchanged: got is the very value the block function returned (same dynamic
+// type, equal value), not merely something that still matches it.
+func unchanged(got, want error) bool {
+	if got == nil || want == nil {
+		return got == want
+	}
+	if reflect.TypeOf(got) != reflect.TypeOf(want) {
+		return false
+	}
+	if reflect.TypeOf(want).Comparable() {
+		return got == want
+	}
+	return sameErr(got, want)
+}
+
 func refusedCommit(err error) bool {
 	return errors.Is(err, sql.ErrTxDone) || errors.Is(err, context.Canceled)
 }
@@ -1259,7 +1281,7 @@ func (x *runner) runSteps(own *gorm.DB, b *Body, fr *frame) error {
 	switch b.Out {
 	case outRollbackNil:
 		x.class("outcome:manual-rollback-then-return-nil")
-		if e := own.Rollback().Error; e != nil {
+		if e := own.Rollback().Error; !x.rollbackErrOK(e) {
 			x.violate("%s: Rollback inside the block: unexpected error %q", where, e)
 		}
 		x.txKilled = true
@@ -1480,6 +1502,8 @@ func (x *runner) callBlock(h *gorm.DB, child *Body, root bool, opts string, ctxC
 			}
 			if !sameErr(cerr, fcRet) {
 				x.violate("%s: the block function returned %q but Transaction returned %q", where, fcRet, cerr)
+			} else if !unchanged(cerr, fcRet) {
+				x.violate("%s: the block function returned %q (%T) but Transaction returned a different value %q (%T): the error does not reach the caller unchanged", where, fcRet, fcRet, cerr, cerr)
 			}
 			return 1, cerr, nil
 		}
@@ -1600,7 +1624,7 @@ func (x *runner) manual(h *gorm.DB, b *Body, opts string) {
 	)
 	// `done := false; defer func() { if !done { tx.Rollback() } }()` of a careful manual program
 	rollback := func() {
-		if e := tx.Rollback().Error; e != nil && !errors.Is(e, err) {
+		if e := tx.Rollback().Error; !x.rollbackErrOK(e) && !errors.Is(e, err) {
 			// (a failed SavePoint leaves its error on the handle, which Rollback reports again)
 			x.violate("%s: Rollback after a failed step: unexpected error %q", where, e)
 		}
@@ -1640,7 +1664,7 @@ func (x *runner) manual(h *gorm.DB, b *Body, opts string) {
 	case outRollbackCommit, outCancelCommit:
 		if b.Out == outRollbackCommit {
 			x.class("outcome:manual-rollback-then-commit")
-			if e := tx.Rollback().Error; e != nil {
+			if e := tx.Rollback().Error; !x.rollbackErrOK(e) {
 				x.violate("%s: Rollback: unexpected error %q", where, e)
 			}
 		} else {
@@ -1680,7 +1704,7 @@ func (x *runner) manual(h *gorm.DB, b *Body, opts string) {
 		}
 	default:
 		x.class("outcome:manual-rollback")
-		if e := tx.Rollback().Error; e != nil {
+		if e := tx.Rollback().Error; !x.rollbackErrOK(e) {
 			x.violate("%s: Rollback: unexpected error %q", where, e)
 		}
 		if x.takeFired() {
@@ -1735,6 +1759,17 @@ func runCase(c Case) result {
 		x.faultErr = driver.ErrBadConn
 		n := 0
 		bad := map[int]bool{}
+		// The dead connection also fails to confirm the ROLLBACK (the real transaction is rolled back
+		// by recdrv first): the fault is still the one injected at a statement; what is checked about
+		// the failed ROLLBACK is only that it does not change the error the block / statement returns
+		// and that the connection is given back.
+		d.Rec.RollbackFault = func(e *recdrv.Event) error {
+			if bad[e.ConnID] {
+				x.rollbackFailed = true
+				return driver.ErrBadConn
+			}
+			return nil
+		}
 		d.Rec.SetFault(func(idx int, e *recdrv.Event) error {
 			cat := category(e)
 			if cat == "" || cat == fBegin {
@@ -1936,6 +1971,9 @@ func runCase(c Case) result {
 	switch {
 	case c.Fault.Kind == fNone:
 		x.class("fault:none")
+	case x.rollbackFailed:
+		x.class("fault:" + c.Fault.Kind + "-fired")
+		x.class("fault:badconn-ROLLBACK-reported-an-error-too")
 	case x.faultHit == "":
 		x.class("fault:" + c.Fault.Kind + "-not-reached")
 	default:
@@ -2453,7 +2491,7 @@ func ownSavepoints(b *Body) {
 const rule = "C04: programs on a key→value table: 1-3 top-level steps (db.Transaction tree of depth ≤4, manual Begin…Commit/Rollback, single write/read), " +
 	"block bodies of put/rawput/upd/del/read/SavePoint/RollbackTo/child-block/CreateInBatches steps (CreateInBatches opens its own block; a batch fails by fault or by a repeated key; a Create whose BeforeCreate/AfterCreate model hook runs steps and child blocks on the handle gorm passes to hooks) ending in return nil | return error | panic(value) | panic(nil) | runtime.Goexit() (outermost blocks and manual programs also: Rollback by hand or cancelled context, then return nil / Commit; nested blocks also started WithContext(ctx2) with ctx2 cancelled at the end), parents returning or swallowing a child's error " +
 	"and optionally recovering its panic, every step inside a block going through the block's own handle or the captured handle of any enclosing block (same transaction), optionally through a session derived from that handle (Session{PrepareStmt}, Session{}, Session{NewDB}, WithContext, Session{SkipHooks}, Session{Logger}); manual save point names short, long (67-110 bytes sharing the first 64+ bytes), with digits/underscores/mixed case, private per block; configuration bits PrepareStmt, DisableNestedTransaction, SkipDefaultTransaction (the last two also per Session), CreateBatchSize, TranslateError, RETURNING support; blocks and manual programs with and without *sql.TxOptions and inside db.Connection; fault plan none or the k-th BEGIN/COMMIT/SAVEPOINT/statement/PREPARE " +
-	"driver call fails (never ROLLBACK / ROLLBACK TO), or the k-th statement inside a transaction fails with driver.ErrBadConn and its connection stays bad; a block that returns an error returns its own sentinel or a value of the database layer (context.Canceled/DeadlineExceeded bare and wrapped, sql.ErrTxDone, sql.ErrConnDone, driver.ErrBadConn, gorm.ErrInvalidTransaction, gorm.ErrRecordNotFound); non-trivial = nesting depth ≥2 reached and at least one failure (block returning an error or panicking, fired fault) with successful writes both before and after it; " +
+	"driver call fails (never ROLLBACK / ROLLBACK TO), or the k-th statement inside a transaction fails with driver.ErrBadConn and its connection stays bad (its ROLLBACK is carried out but reports ErrBadConn too); a block that returns an error returns its own sentinel or a value of the database layer (context.Canceled/DeadlineExceeded bare and wrapped, sql.ErrTxDone, sql.ErrConnDone, driver.ErrBadConn, gorm.ErrInvalidTransaction, gorm.ErrRecordNotFound); non-trivial = nesting depth ≥2 reached and at least one failure (block returning an error or panicking, fired fault) with successful writes both before and after it; " +
 	"distinct = configuration + fault plan + initial rows + program text"
 
 func checkCase(t interface {
@@ -2635,5 +2673,29 @@ func TestC04WitnessHookNestedSavepoint(t *testing.T) {
 		if strings.HasPrefix(e.Text, "SAVEPOINT") && len(e.Args) > 0 {
 			t.Logf("note: %v carries the bind values of the hook's INSERT", e)
 		}
+	}
+}
+
+// Transaction called on a handle that already carries an Error (e.g. the value a
+// failed finisher returned): DB.Begin copies the old error into the new handle,
+// opens the sql.Tx all the same, and Transaction sees tx.Error != nil and
+// returns it – without running the block and without rolling the transaction
+// back: the connection never goes back to the pool.
+func TestC04WitnessErroredHandleLeak(t *testing.T) {
+	d := testdb.Open(testdb.Options{})
+	defer d.Close()
+	if _, err := d.SQL.Exec("CREATE TABLE kv (k TEXT PRIMARY KEY, v INTEGER NOT NULL)"); err != nil {
+		t.Fatalf("harness: %v", err)
+	}
+	d.Rec.Reset()
+	var row KV
+	res := d.First(&row, "k = ?", "missing") // ErrRecordNotFound stays on res
+	if !errors.Is(res.Error, gorm.ErrRecordNotFound) {
+		t.Fatalf("harness: First returned %v", res.Error)
+	}
+	ran := false
+	err := res.Transaction(func(tx *gorm.DB) error { ran = true; return nil })
+	if in, open := d.SQL.Stats().InUse, d.Rec.OpenTx(); in != 0 || open != 0 {
+		t.Errorf("Transaction on a handle carrying %q returned %v (block ran: %v) and left InUse=%d, open driver transactions=%d: the transaction it began was neither committed nor rolled back", res.Error, err, ran, in, open)
 	}
 }
